@@ -35,7 +35,7 @@ COMPONENTS = {"real": ["Model.__init__/update/finish", "ladim.main.main (sampled
 ASSUMPTIONS = ["the shims override only methods the base classes have and delegate unchanged"]
 TIERS = {"quick": dict(runs=500, budget_s=50, shrink=100),
          "thorough": dict(runs=50000, budget_s=900, shrink=200)}
-REQUIRED_PROBES = ["cold", "warm", "via_main", "plugin_relative_path", "plugin_module_name", "plugin_same_basename_two_dirs", "plugin_dotted_stem", "grid_plugin_with_close", "plain_run_before_and_after", "ibm_section_with_module_only", "ibm_kill_checked",
+REQUIRED_PROBES = ["cold", "warm", "via_main", "plugin_relative_path", "plugin_module_name", "plugin_same_basename_two_dirs", "plugin_dotted_stem", "grid_plugin_with_close", "plain_run_before_and_after", "ibm_section_with_module_only", "plugin_named_like_a_ladim_module", "ibm_kill_checked",
                    "late_release", "scalar_in_record"]
 
 PROFILE = gen.profile(
@@ -53,7 +53,7 @@ def generate(seed: int, tier: str, idx: int) -> dict:
     sc = gen.gen_scenario(seed, PROFILE)
     sc["output"]["layout"] = sc["output"].get("layout", "sparse")
     plan = {"start": s.wpick([("cold", 3), ("warm", 2)]),
-            "plugin": s.pick(["abs", "rel", "rel_py", "name", "twin", "dotted", "dotted_py"]),
+            "plugin": s.pick(["abs", "rel", "rel_py", "name", "twin", "dotted", "dotted_py", "collide", "collide_py"]),
             "main": s.chance(0.5)}
     if plan["start"] == "warm":
         sc["output"].pop("layout", None)        # warm start reads the sparse format
@@ -131,6 +131,11 @@ def _install_plugin(d: Path, how: str, twin: bool = False):
         (d / "myibm.py").write_text(marked)
         written = [d / "myibm.py"]
         name = "myibm.py" if how == "rel_py" else "myibm"
+    elif how in ("collide", "collide_py"):
+        # the user's file in the working directory is called like one of LADiM's own modules
+        (d / "ibm.py").write_text(marked)
+        written = [d / "ibm.py"]
+        name = "ibm.py" if how == "collide_py" else "ibm"
     elif how == "abs":
         (d / "absibm.py").write_text(marked)
         written = [d / "absibm.py"]
@@ -331,8 +336,10 @@ def execute(sc) -> Result:
         res.probes[pl["start"]] += 1
         if pl["main"]:
             res.probes["via_main"] += 1
-        if pl["plugin"] in ("rel", "rel_py"):
+        if pl["plugin"] in ("rel", "rel_py", "collide", "collide_py"):
             res.probes["plugin_relative_path"] += 1
+        if pl["plugin"].startswith("collide"):
+            res.probes["plugin_named_like_a_ladim_module"] += 1
         if pl["plugin"] == "name" or pl.get("by_name"):
             res.probes["plugin_module_name"] += 1
         if pl["plugin"] == "twin":
